@@ -42,6 +42,15 @@ RULE_CANDIDATES = [
     ("sub-add-cancel", ("sub", ("add", X, Y), Y), X),
     ("zero-add", ("add", C(0), X), X),
     ("one-mul", ("mul", C(1), X), X),
+    # rules that MATERIALISE constants whose python hash collides with another constant (hash(-1) == hash(-2); on 64 bit
+    # 3 / 2**63-1, -4 / -2**63, 0 / 2**61-1 are equal modulo 2**61-1): a hash-only equality in the hash-cons /
+    # congruence tables merges the new constant with its partner (the generator plants the partner, see COLLIDING)
+    ("sub-succ-minus-one", ("sub", X, ("add", X, C(1))), C(-1)),
+    ("neg-pred-is-not", ("sub", ("sub", C(0), X), C(1)), ("xor", X, C(-1))),
+    ("not-as-sub", ("xor", X, C(-1)), ("sub", C(-1), X)),
+    ("sub-plus2-minus-two", ("sub", X, ("add", X, C(2))), C(-2)),
+    ("add3-sub-three", ("sub", ("add", X, C(3)), X), C(3)),
+    ("sub-plus4-minus-four", ("sub", X, ("add", X, C(4))), C(-4)),
     # unsound on purpose (validator must reject them; they are never used in a pipeline)
     ("UNSOUND-sub-comm", ("sub", X, Y), ("sub", Y, X)),
     ("UNSOUND-add-one", ("add", X, C(1)), X),
@@ -51,6 +60,11 @@ RULE_CANDIDATES = [
     ("UNSOUND-and-zero", ("and", X, C(0)), X),
     ("UNSOUND-mul-any-const", ("mul", X, C(2)), X),
 ]
+
+
+# rules whose right-hand side creates a constant that has a hash-colliding partner
+MATERIALISING = ("sub-succ-minus-one", "neg-pred-is-not", "not-as-sub", "sub-plus2-minus-two", "add3-sub-three",
+                 "sub-plus4-minus-four", "sub-self", "xor-self")
 
 
 def relaxed(rule):
@@ -236,6 +250,26 @@ def rule_pdl(rule, ty, const_type_prob_rng=None, reuse_matched_const=True):
 
 # ------------------------------------------------------------------------------------------------ programs
 PROG_TYPES = ["i32", "i32", "i64", "i8", "i16"]
+M61 = 2 ** 61 - 1  # CPython: hash(int) is the value modulo 2**61-1 (and hash(-1) == -2)
+
+
+def colliding(c, ty):
+    """Constants of type ty whose python hash equals hash(c) although the value differs."""
+    out = {-1: [-2], -2: [-1]}.get(c, [])
+    if ty in ("i64", "index"):
+        out = out + {3: [2 ** 63 - 1], 2 ** 63 - 1: [3], -4: [-2 ** 63], -2 ** 63: [-4], 0: [M61], M61: [0],
+                     1: [M61 + 1], 2: [M61 + 2]}.get(c, [])
+    return out
+
+
+def expr_consts(e, acc=None):
+    acc = [] if acc is None else acc
+    if e[0] == "c":
+        acc.append(e[1])
+    elif e[0] in OPS:
+        expr_consts(e[1], acc)
+        expr_consts(e[2], acc)
+    return acc
 PROG_OPS = ["addi", "addi", "addi", "muli", "muli", "subi", "shli", "andi", "ori", "xori"]
 
 
@@ -277,6 +311,19 @@ def gen_func(rng, ty=None, ops=None, plant=(), name="main"):
         venv: dict = {}
         v = emit_expr(lhs, venv)
         env.append(v)
+        for c in set(expr_consts(rhs)):
+            # hash-colliding partner of every constant the rule materialises, kept alive by an op (sometimes returned)
+            for pc in colliding(c, ty):
+                if rng.random() < 0.7:
+                    k = fresh()
+                    lines.append(f"{k} = arith.constant {pc} : {ty}")
+                    consts.append(k)
+                    if rng.random() < 0.6:
+                        t = fresh()
+                        lines.append(f"{t} = arith.{rng.choice(['addi', 'xori', 'subi'])} {rng.choice(env)}, {k} : {ty}")
+                        env.append(t)
+                    else:
+                        env.append(k)
         if rng.random() < 0.8:
             # congruence twins: the same op applied to the redex and to what the rule says it is equal to; after the
             # rule merges the two classes the parents become identical and the rebuild step has to merge them too
@@ -297,7 +344,9 @@ def gen_func(rng, ty=None, ops=None, plant=(), name="main"):
         v = fresh()
         r = rng.random()
         if r < 0.28:
-            c = rng.choice([0, 0, 0, 1, 1, 1, 2, 2, 3, -1])
+            c = rng.choice([0, 0, 0, 1, 1, 1, 2, 2, 3, -1, -1, -2, -2, 4, -4])
+            if ty in ("i64", "index") and rng.random() < 0.15:
+                c = rng.choice([2 ** 63 - 1, -2 ** 63, M61, M61 + 1])
             lines.append(f"{v} = arith.constant {c} : {ty}")
             consts.append(v)
         else:
